@@ -2003,4 +2003,65 @@ theorem setAttrpathWalk_origin (ks : List Text) : ∀ (cur : Node) (d d1 : Doc) 
 theorem getLast_cons_snoc {α} (a : α) (l : List α) (x : α) : (a :: (l ++ [x])).getLast? = some x := by
   rw [← List.cons_append, List.getLast?_append]; simp
 
+theorem specSetK_nodup (v : Node) (hv : (denote v).nodup = true) (names : List Text) : ∀ (kids kids' : Kids),
+    AttrTree.nodupL kids = true → specSetK v kids names = some kids' → AttrTree.nodupL kids' = true := by
+  induction names with
+  | nil => intro kids kids' _ h; simp [specSetK] at h
+  | cons n rest ih =>
+    intro kids kids' hn h
+    cases rest with
+    | nil =>
+      rw [specSetK_single] at h
+      injection h with h; subst h
+      exact AttrTree.nodupL_upsert n _ kids hn hv
+    | cons a b =>
+      cases hl : Kids.lookup n kids with
+      | none =>
+        rw [specSetK_none v kids n (a :: b) (by simp) hl] at h
+        cases hs : specSetK v [] (a :: b) with
+        | none => simp [hs] at h
+        | some sub =>
+          simp only [hs, Option.map_some, Option.some.injEq] at h; subst h
+          exact AttrTree.nodupL_upsert n _ kids hn (by simpa using ih [] sub (by simp [AttrTree.nodupL]) hs)
+      | some t =>
+        cases t with
+        | leaf x => rw [specSetK_leaf v kids n (a :: b) (by simp) x hl] at h; cases h
+        | node sub0 =>
+          rw [specSetK_node v kids sub0 n (a :: b) (by simp) hl] at h
+          cases hs : specSetK v sub0 (a :: b) with
+          | none => simp [hs] at h
+          | some sub =>
+            simp only [hs, Option.map_some, Option.some.injEq] at h; subst h
+            have h0 : AttrTree.nodupL sub0 = true := by simpa using AttrTree.nodupL_lookup n _ kids hn hl
+            exact AttrTree.nodupL_upsert n _ kids hn (by simpa using ih sub0 sub h0 hs)
+
+theorem specRemoveK_nodup (prune : Bool) (names : List Text) : ∀ (kids kids' : Kids),
+    AttrTree.nodupL kids = true → specRemoveK prune kids names = some kids' → AttrTree.nodupL kids' = true := by
+  induction names with
+  | nil => intro kids kids' _ h; simp [specRemoveK] at h
+  | cons n rest ih =>
+    intro kids kids' hn h
+    cases rest with
+    | nil =>
+      rw [specRemoveK_single] at h
+      split at h
+      · injection h with h; subst h; exact AttrTree.nodupL_erase n kids hn
+      · cases h
+    | cons a b =>
+      cases hl : Kids.lookup n kids with
+      | none => rw [specRemoveK_other prune kids n (a :: b) (by simp) (by simp [hl])] at h; cases h
+      | some t =>
+        cases t with
+        | leaf x => rw [specRemoveK_other prune kids n (a :: b) (by simp) (by simp [hl])] at h; cases h
+        | node sub0 =>
+          rw [specRemoveK_node prune kids sub0 n (a :: b) (by simp) hl] at h
+          cases hs : specRemoveK prune sub0 (a :: b) with
+          | none => simp [hs] at h
+          | some sub =>
+            simp only [hs, Option.map_some, Option.some.injEq] at h; subst h
+            have h0 : AttrTree.nodupL sub0 = true := by simpa using AttrTree.nodupL_lookup n _ kids hn hl
+            split
+            · exact AttrTree.nodupL_erase n kids hn
+            · exact AttrTree.nodupL_upsert n _ kids hn (by simpa using ih sub0 sub h0 hs)
+
 end Nima
